@@ -633,5 +633,88 @@ def r06_17(ctx):
     delegate(ctx, c09.r09_11, lambda c: True)
 
 
+def r06_18(ctx):
+    """R06.18 the generators expose a range as numbers of the first active entry: in kconfgen every loop over an option's
+    `ranges` uses the two bound symbols through `.str_value` only (a raw Symbol object in the JSON tree makes json.dump raise
+    TypeError - the `menuconfig` arm of write_json_menus did that: fixed defect 5.55) and ends at the first entry whose
+    condition holds, like Symbol.str_value."""
+    from .common import first_match_loops, own_nodes
+    repo = ctx.repo
+    n_loops = 0
+    quals = []
+    for f in repo.funcs_in("kconfgen.core"):
+        loops = [n for n in own_nodes(repo, f) if isinstance(n, ast.For) and ast.unparse(n.iter).endswith(".ranges")]
+        if not loops:
+            continue
+        ctx.analysed(f.qual)
+        quals.append(f.qual)
+        for lp in loops:
+            n_loops += 1
+            names = [t.id for t in ast.walk(lp.target) if isinstance(t, ast.Name)]
+            bounds = set(names[:2]) if len(names) >= 3 else set()
+            construct = f"{f.short}/the bounds of `{ast.unparse(lp.iter)}` are exposed through str_value"
+            if not bounds:
+                ctx.bad(construct, f"the loop target `{ast.unparse(lp.target)}` does not name the two bounds", f.loc(lp))
+                continue
+            raw = [x for x in ast.walk(lp) if isinstance(x, ast.Name) and x.id in bounds and isinstance(x.ctx, ast.Load)
+                   and not (isinstance(repo.parent(x), ast.Attribute) and repo.parent(x).attr in ("str_value", "name"))]
+            (ctx.bad(construct, f"`{raw[0].id}` (a Symbol object) is used as it is at line {raw[0].lineno}: json.dump raises TypeError for an option with an active range",
+                     f.loc(raw[0])) if raw else ctx.ok(construct, f.loc(lp)))
+            construct = f"{f.short}/the search over `{ast.unparse(lp.iter)}` can end early"
+            (ctx.ok(construct, f.loc(lp)) if any(isinstance(x, (ast.Break, ast.Return)) for x in ast.walk(lp)) else
+             ctx.bad(construct, "the loop runs over every entry: the last active range is reported, the evaluator clamps to the first", f.loc(lp)))
+    if not n_loops:
+        raise AnchorError("kconfgen.core: no loop over an option's ranges")
+    first_match_loops(ctx, quals, "the JSON reports another range than the one the value is clamped to", suffixes=(".ranges",))
+
+
+def r06_19(ctx):
+    """R06.19 what passes the int/hex form check is a number for every consumer: _is_base_n() answers True only for text without
+    `_` - Python's int() accepts digit-group underscores (`1_0`, `0x1_f`), the text is exposed as written (R06.14) and
+    `#define CONFIG_X 0x1_f` does not compile while the JSON says 31 (fixed defect 5.56)."""
+    repo = ctx.repo
+    f = repo.func(f"{CORE}:_is_base_n")
+    ctx.analysed(f.qual)
+    prm = f.node.args.args[0].arg
+    fl = Flow(f.node, resolver=Resolver(f.node)).run()
+    rets = [n for n in ast.walk(f.node) if isinstance(n, ast.Return)]
+    if not rets:
+        raise AnchorError("_is_base_n: no return")
+
+    def excludes(node, pol=True):
+        """the expression being `pol` implies that `_` is not in the text"""
+        if isinstance(node, ast.BoolOp):
+            if isinstance(node.op, ast.And) and pol:
+                return any(excludes(v, True) for v in node.values)
+            if isinstance(node.op, ast.Or) and not pol:
+                return any(excludes(v, False) for v in node.values)
+            return False
+        if isinstance(node, ast.UnaryOp) and isinstance(node.op, ast.Not):
+            return excludes(node.operand, not pol)
+        if isinstance(node, ast.Compare) and len(node.ops) == 1 and isinstance(node.left, ast.Constant) and node.left.value == "_" \
+                and ast.unparse(node.comparators[0]) == prm:
+            return isinstance(node.ops[0], ast.NotIn) if pol else isinstance(node.ops[0], ast.In)
+        if isinstance(node, ast.Call) and ast.unparse(node.func) in ("re.fullmatch", "_re_fullmatch") or (
+                isinstance(node, ast.Call) and isinstance(node.func, ast.Attribute) and node.func.attr in ("fullmatch", "isdigit", "isdecimal")):
+            # a character-class test of the whole text: decided by folding the witness
+            from ..foldcheck import Unfoldable, fold_str_expr
+            try:
+                return pol and not fold_str_expr(node, {prm: "1_0"})
+            except Unfoldable:
+                return False
+        return False
+    for r in rets:
+        construct = f"_is_base_n/`return {ast.unparse(r.value)[:40] if r.value else ''}` never accepts a digit-group underscore"
+        v = r.value
+        if isinstance(v, ast.Constant) and v.value in (False, None):
+            ctx.ok(construct, f.loc(r), nontrivial=False)
+            continue
+        gs = fl.guards_at(r) or set()
+        guarded = any((k.replace('"', "'") == f"'_' not in {prm}" and p) or (k.replace('"', "'") == f"'_' in {prm}" and not p) for k, p in gs)
+        ok = guarded or (v is not None and not isinstance(v, ast.Constant) and excludes(v))
+        (ctx.ok(construct, f.loc(r)) if ok else
+         ctx.bad(construct, "int() also accepts `1_0` and `0x1_f`: the text is exposed as written, the C header does not compile and the formats disagree", f.loc(r)))
+
+
 def rules():
-    return [("R06.17", r06_17, 3), ("R06.16", r06_16, 6), ("R06.15", r06_15, 4), ("R06.14", r06_14, 2), ("R06.13", r06_13, 3), ("R06.12", r06_12, 1), ("R06.11", r06_11, 3), ("R06.10", r06_10, 12), ("R06.6", r06_6, 14), ("R06.7", r06_7, 3), ("R06.1", r06_1, 7), ("R06.2", r06_2, 6), ("R06.3", r06_3, 2), ("R06.4", r06_4, 20), ("R06.5", r06_5, 3), ("R06.8", r06_8, 12), ("R06.9", r06_9, 1)]
+    return [("R06.19", r06_19, 2), ("R06.18", r06_18, 3), ("R06.17", r06_17, 3), ("R06.16", r06_16, 6), ("R06.15", r06_15, 4), ("R06.14", r06_14, 2), ("R06.13", r06_13, 3), ("R06.12", r06_12, 1), ("R06.11", r06_11, 3), ("R06.10", r06_10, 12), ("R06.6", r06_6, 14), ("R06.7", r06_7, 3), ("R06.1", r06_1, 7), ("R06.2", r06_2, 6), ("R06.3", r06_3, 2), ("R06.4", r06_4, 20), ("R06.5", r06_5, 3), ("R06.8", r06_8, 12), ("R06.9", r06_9, 1)]
